@@ -206,6 +206,33 @@ def method_cfg(world, cls_qname, name, inline_also=(), lift_values=False):
                                     if p not in inline_also),
                    lift_values=lift_values)
     q = "%s.%s" % (cls_qname, name)
+    # `general = gear.general if isinstance(addr, GearAddress) else
+    # device.general` followed by `yield general.X(...)` everywhere: after
+    # the conditional callable is written out, every command is a diamond on
+    # the same address test.  The rules read one command per yield site (the
+    # pinned tree picks the class inside small factory functions).
+    dia = [n for n in ast.walk(fn) if isinstance(n, ast.If) and unparse(
+        n.test).startswith("isinstance(") and len(n.body) == 1 and len(
+            n.orelse) == 1 and all(any(isinstance(x, ast.Yield)
+                                       for x in ast.walk(b))
+                                   for b in (n.body[0], n.orelse[0]))]
+    if len(dia) >= 4 and len({unparse(n.test) for n in dia}) == 1:
+        raise AnalysisError(
+            "%s picks the command set (gear / device) once and yields "
+            "`<set>.X(...)` at every step (%d sites decided by `%s`); the "
+            "memory rules read the command of a yield site, not a pair of "
+            "alternatives" % (q, len(dia), unparse(dia[0].test)))
     cfg = gen_cfg(fn, q)
     ys = yields_of(cfg, world, LOC)
+    for y in ys:
+        if not y.is_from and y.cls is None and y.call is not None and \
+                isinstance(y.call.func, ast.Attribute) and isinstance(
+                    y.call.func.value, ast.Name) and not getattr(
+                        y, "fn", None):
+            # `general = gear.general if ... else device.general;
+            #  yield general.DTR1(...)`: which command is sent is a value
+            raise AnalysisError(
+                "%s yields `%s`, a command class picked from a module "
+                "chosen at run time; the memory rules resolve the command "
+                "of every yield statically" % (q, unparse(y.call.func)))
     return fn, cfg, ys, q
